@@ -214,3 +214,27 @@ Definition check_vertices (c : vcase) : bool :=
    | Some sr => check_solve (optv_rhs Fops) optv_smooth_guard n (vc_nsmooth c) L var0 (vc_free c) (vc_fixed c) sr (vc_final c)
    | None => true
    end).
+
+(* ================================================================== the input class of the known crash (eigen path)
+   closed surface (every stored edge has a face on both sides), no feature edge, and the model's connection Laplacian has
+   the given field of modulus 1 in its kernel: a parallel unit field exists (trivial order-fold holonomy), so the operator
+   the code factorises with shift 0 is singular *)
+Record pcase := mkpcase {
+  pc_order : nat;
+  pc_verts : list lit3; pc_faces : list face; pc_edges : list edge; pc_feat : list Z;
+  pc_D : option (list lit);
+  pc_field : list lit2
+}.
+Definition tol6 : float := mkf 4722366482869645 (-72).   (* 1e-6 *)
+Definition check_parallel (c : pcase) : bool :=
+  let V := map fvec (pc_verts c) in
+  let F := pc_faces c in let E := pc_edges c in
+  let n := zlen F in
+  let D := match pc_D c with Some l => Some (map lit_f l) | None => None end in
+  let L := lap_faces Fops (pc_order c) D V F E (pc_feat c) in
+  let p := fun i => znth (map fcx (pc_field c)) i (c0 Fops) in
+  isnil (pc_feat c) &&
+  (zlen (dual_pairs F E) =? zlen E) &&
+  (Z.of_nat (length (pc_field c)) =? n) &&
+  forallb (fun i => fclose tol6 (cnorm2 Fops (p i)) PrimFloat.one) (zrange n) &&
+  forallb (fun i => ccl_mag tol (mrow_mag L i p) (mrow_dot Fops L i p) (c0 Fops)) (zrange n).
